@@ -1116,6 +1116,9 @@ func runC05(c *Ctx) {
 	if c.Want("crossctx") {
 		runCrossCtx(c)
 	}
+	if c.Want("mapper") {
+		runMapper(c)
+	}
 	if c.Want("alias") {
 		runAlias(c)
 	}
@@ -1149,6 +1152,11 @@ func replayC05(c *Ctx) {
 		checkHist(c, r.Ops, true)
 	case "union":
 		checkUnion(c, r.Members, r.Perm)
+	case "mapper":
+		var mc mapperCase
+		if json.Unmarshal(c.Replay, &mc) == nil {
+			checkMapper(c, &mc)
+		}
 	case "crossctx":
 		var cc crossCase
 		if json.Unmarshal(c.Replay, &cc) == nil {
